@@ -2,7 +2,7 @@
 """Print a markdown table of /verif/seeded/*/meta.json (used for DESIGN.md section 13)."""
 import json, glob, os
 rows = []
-for p in sorted(glob.glob("/verif/seeded/*/meta.json")):
+for p in sorted(glob.glob("/verif/%s/*/meta.json" % (__import__("sys").argv[1] if len(__import__("sys").argv) > 1 else "seeded"))):
     m = json.load(open(p))
     v = m.get("verification", {})
     caught = v.get("check_exit_with_change")
